@@ -899,3 +899,80 @@ Lemma refuted_vip_ghost :
 Proof. split; [vm_compute; reflexivity|]. split; [vm_compute; reflexivity|]. vm_compute. split; reflexivity. Qed.
 Lemma accepted_is_closed_full fs : vip_products_defined fs = true -> accepted fs = true -> closed_full fs = true.
 Proof. intros Hv Ha. unfold closed_full. rewrite (accepted_is_closed fs Ha), Hv. reflexivity. Qed.
+
+(* ------------------------------------------------------------------ bal_gslb.Reload: independent of the load history *)
+Lemma NoDup_app_intro {A} (a b : list A) : NoDup a -> NoDup b -> (forall x, In x a -> ~ In x b) -> NoDup (a ++ b).
+Proof.
+  induction a as [|x a IH]; simpl; intros Ha Hb Hd; [exact Hb|].
+  inversion Ha; subst. constructor.
+  - intro Hin. apply in_app_or in Hin. destruct Hin as [Hin | Hin]; [contradiction | exact (Hd x (or_introl eq_refl) Hin)].
+  - apply IH; [assumption | assumption | intros y Hy; apply Hd; right; exact Hy].
+Qed.
+Lemma filter_keys_nodup {A} (p : str * A -> bool) l : NoDup (map fst l) -> NoDup (map fst (filter p l)).
+Proof.
+  induction l as [|e l IH]; simpl; intro H; [constructor|]. inversion H; subst.
+  destruct (p e); simpl; [constructor|]; auto.
+  intro Hin. apply H2. apply in_map_iff in Hin. destruct Hin as [y [Hy Hin]]. apply filter_In in Hin.
+  apply in_map_iff. exists y. tauto.
+Qed.
+Definition kept (old conf : list (str * Z)) : list (str * Z) :=
+  flat_map (fun e => match assoc (fst e) conf with Some w => [(fst e, w)] | None => [] end) old.
+Lemma kept_In old conf k w : In (k, w) (kept old conf) <-> In k (map fst old) /\ assoc k conf = Some w.
+Proof.
+  unfold kept. rewrite in_flat_map. split.
+  - intros [e [He Hin]]. destruct (assoc (fst e) conf) eqn:E; [|contradiction]. destruct Hin as [Hin | []].
+    inversion Hin; subst. split; [apply in_map; exact He | exact E].
+  - intros [Hk Ha]. apply in_map_iff in Hk. destruct Hk as [e [Hf He]]. exists e. split; [exact He|].
+    rewrite Hf, Ha. left. reflexivity.
+Qed.
+Lemma kept_keys_nodup old conf : NoDup (map fst old) -> NoDup (map fst (kept old conf)).
+Proof.
+  unfold kept. induction old as [|e old IH]; simpl; intro H; [constructor|]. inversion H; subst.
+  rewrite map_app. apply NoDup_app_intro.
+  - destruct (assoc (fst e) conf); simpl; repeat constructor. intros [].
+  - apply IH. assumption.
+  - intros x Hx Hin. destruct (assoc (fst e) conf); simpl in Hx; [|contradiction]. destruct Hx as [Hx | []]. subst x.
+    apply in_map_iff in Hin. destruct Hin as [[k w] [Hk Hin]]. simpl in Hk. subst k.
+    apply (kept_In old conf) in Hin. destruct Hin as [Hin _]. contradiction.
+Qed.
+Lemma gslb_merge_perm old conf :
+  NoDup (map fst old) -> NoDup (map fst conf) -> Permutation (gslb_merge old conf) conf.
+Proof.
+  intros Ho Hc. fold (kept old conf) in *. unfold gslb_merge. fold (kept old conf).
+  assert (Hnd : NoDup (map fst (kept old conf ++ filter (fun e => negb (mem_str (fst e) (map fst old))) conf))).
+  { rewrite map_app. apply NoDup_app_intro.
+    - apply kept_keys_nodup. exact Ho.
+    - apply filter_keys_nodup. exact Hc.
+    - intros k Hk Hin. apply in_map_iff in Hk. destruct Hk as [[k' w] [E Hk]]. simpl in E. subst k'.
+      apply kept_In in Hk. destruct Hk as [Hk _].
+      apply in_map_iff in Hin. destruct Hin as [[k' w'] [E Hin]]. simpl in E. subst k'.
+      apply filter_In in Hin. destruct Hin as [_ Hin]. simpl in Hin. apply negb_true_iff in Hin.
+      apply mem_str_false in Hin. contradiction. }
+  apply NoDup_Permutation.
+  - apply NoDup_map_inv' in Hnd. exact Hnd.
+  - apply NoDup_map_inv' in Hc. exact Hc.
+  - intros [k w]. rewrite in_app_iff, kept_In, filter_In. simpl. split.
+    + intros [[_ Ha] | [Hin _]]; [apply assoc_In; exact Ha | exact Hin].
+    + intro Hin. destruct (mem_str k (map fst old)) eqn:E.
+      * left. split; [apply mem_str_In; exact E | apply assoc_nodup; assumption].
+      * right. split; [exact Hin | reflexivity].
+Qed.
+
+(* Init(a); Reload(b) ends in the state of a fresh Init(b): same sorted sub-cluster list, total weight, single flag and
+   (when single) avail index -- hence the same sub-cluster for every hash value *)
+Lemma gslb_reload_history_independent a b :
+  NoDup (map fst a) -> NoDup (map fst b) -> pos_total a <> 0 -> gslb_after_reload a b = gslb_fresh b.
+Proof.
+  intros Ha Hb Hpa. unfold gslb_after_reload, gslb_fresh.
+  destruct (pos_total a =? 0) eqn:E; [apply Z.eqb_eq in E; contradiction|].
+  assert (Hsa : NoDup (map fst (sort_by_name a)))
+    by (eapply Permutation_NoDup; [apply Permutation_map; apply sort_by_name_perm | exact Ha]).
+  pose proof (gslb_merge_perm (sort_by_name a) b Hsa Hb) as Hp.
+  assert (Hs : sort_by_name (gslb_merge (sort_by_name a) b) = sort_by_name b).
+  { apply sorted_perm_eq.
+    - apply sort_by_name_sorted. eapply Permutation_NoDup; [apply Permutation_map; apply Permutation_sym; exact Hp | exact Hb].
+    - apply sort_by_name_sorted. exact Hb.
+    - eapply Permutation_trans; [apply Permutation_sym; apply sort_by_name_perm|].
+      eapply Permutation_trans; [exact Hp | apply sort_by_name_perm]. }
+  rewrite Hs. rewrite <- (pos_total_perm _ _ (sort_by_name_perm b)). reflexivity.
+Qed.
